@@ -142,6 +142,18 @@ theorem collection_sites_covered :
     globalLoopStripsModifier = true ∧ dedupByTypeId = true ∧ fnLoopOneTypeArgument = true := by
   decide
 
+/-- **When validation runs and what it prints.**  `compile` calls `check_layout` exactly when
+    `validate_layout_consistency` is set, between type checking and anything that depends on the target or on
+    the pipeline mode; a mismatch prints the HLSL layout first and the Metal layout second, size before
+    alignment (this is how the harness reads the message back). -/
+theorem diagnostic_pinned :
+    validationGuard = "args.validate_layout_consistency" ∧ validationBeforeTargetSelection = true ∧
+    unknownMessage = "struct has unknown size" ∧
+    mismatchMessage = "struct has size={} align={} on HLSL but size={} align={} on Metal" ∧
+    mismatchArgs = ["lhs.size", "lhs.align", "rhs.size", "rhs.align"] ∧
+    fnLocationIsStructDefinition = true := by
+  decide
+
 /-- a use of the type `r` that the property names: the element type of a global (RW)StructuredBuffer (below any
     modifiers), or the type argument of an instantiated typed load / store of a raw buffer or buffer address -/
 inductive PropertyUse (m : Module) (r : TyRef) : Prop
